@@ -47,10 +47,13 @@ type tuple struct {
 	sc                  script
 	pad                 int
 	role                string // "real-client" or "real-server"
+	hourDelta           int64  // reference client only: its clock is this many hours off
+	realPad             string // "", "min", "max": script the real side's own padding draw
+	dribble             bool   // the real side receives the stream one byte per read
 }
 
 func (t tuple) name() string {
-	return fmt.Sprintf("%s/id%d/seed%d/iat%d/bias=%v/%s/%s/pad=%d", t.role, t.idIdx, t.seedIdx, t.iat, t.bias, t.format, t.sc.name, t.pad)
+	return fmt.Sprintf("%s/id%d/seed%d/iat%d/bias=%v/%s/%s/pad=%d/hour%+d/realpad=%s", t.role, t.idIdx, t.seedIdx, t.iat, t.bias, t.format, t.sc.name, t.pad, t.hourDelta, t.realPad) + map[bool]string{false: "", true: "/dribble"}[t.dribble]
 }
 
 func fail(c *mc.Ctx, oracle, key, format string, a ...any) {
@@ -61,9 +64,19 @@ func fail(c *mc.Ctx, oracle, key, format string, a ...any) {
 func realClientVsRefServer(c *mc.Ctx, t tuple, seed int64) {
 	br := o4h.NewBridge(seed, fmt.Sprint(t.idIdx, "/", t.seedIdx), t.iat, t.bias)
 	o4h.SetBias(t.bias)
-	rnd.Install(rnd.New(seed, "c06-real-"+t.name()))
+	realStream := rnd.New(seed, "c06-real-"+t.name())
+	rnd.Install(realStream)
+	switch t.realPad {
+	case "min":
+		realStream.Script8 = [][]byte{rnd.ScriptIntn(0)}
+	case "max":
+		realStream.Script8 = [][]byte{rnd.ScriptIntn(8128 - 77)}
+	}
 	refRnd := rnd.New(seed, "c06-ref-"+t.name())
 	cw, sw := wire.Pipe("client", "server")
+	if t.dribble {
+		cw.Chunker = wire.Dribble
+	}
 	var dialErr, srvErr error
 	var got []byte
 	var rs *o4h.RefSession
@@ -137,6 +150,9 @@ func realClientVsRefServer(c *mc.Ctx, t tuple, seed int64) {
 	if hello[0].N < 141 || hello[0].N > 8192 {
 		fail(c, "handshake-length", "client/hello-length", "client handshake is %d bytes, deployed range is [141, 8192]", hello[0].N)
 	}
+	if t.realPad == "min" && hello[0].N != 141 || t.realPad == "max" && hello[0].N != 8192 {
+		fail(c, "handshake-length", "client/hello-length-extreme", "with the padding draw scripted to its %s the client handshake is %d bytes (deployed: min 141, max 8192)", t.realPad, hello[0].N)
+	}
 	if expectRefuse {
 		if dialErr == nil {
 			fail(c, "handshake-length", "client/accepts-oversize-response", "server padding %d puts the mark beyond 8192 bytes, yet Dial succeeded", t.pad)
@@ -192,7 +208,8 @@ func checkFrames(c *mc.Ctx, who string, rs *o4h.RefSession) {
 // refClientVsRealServer: the reference client talks to the real server (public API).
 func refClientVsRealServer(c *mc.Ctx, t tuple, seed int64) {
 	br := o4h.NewBridge(seed, fmt.Sprint(t.idIdx, "/", t.seedIdx), t.iat, t.bias)
-	rnd.Install(rnd.New(seed, "c06-real-"+t.name()))
+	realStream := rnd.New(seed, "c06-real-"+t.name())
+	rnd.Install(realStream)
 	refRnd := rnd.New(seed, "c06-ref-"+t.name())
 	sf, err := br.ServerFactory()
 	if err != nil {
@@ -204,6 +221,9 @@ func refClientVsRealServer(c *mc.Ctx, t tuple, seed int64) {
 		fail(c, "bridge-line", "server/cert", "advertised cert %q, reference %q", cert, br.Cert())
 	}
 	cw, sw := wire.Pipe("client", "server")
+	if t.dribble {
+		sw.Chunker = wire.Dribble
+	}
 	var wrapErr, cliErr error
 	var got []byte
 	var rs *o4h.RefSession
@@ -212,7 +232,7 @@ func refClientVsRealServer(c *mc.Ctx, t tuple, seed int64) {
 	res := sched.Run(c, sched.Options{NoPreempt: true}, func() {
 		s := sched.Cur()
 		s.Spawn("ref-client", func() {
-			rs, _, cliErr = o4h.RefClient(cw, br.ID.Pub[:], br.ID.NodeID[:], o4h.ClientOpts{PadLen: t.pad}, refRnd)
+			rs, _, cliErr = o4h.RefClient(cw, br.ID.Pub[:], br.ID.NodeID[:], o4h.ClientOpts{PadLen: t.pad, HourDelta: t.hourDelta}, refRnd)
 			if cliErr != nil {
 				cw.Close()
 				return
@@ -241,6 +261,12 @@ func refClientVsRealServer(c *mc.Ctx, t tuple, seed int64) {
 			cw.Close()
 		})
 		var conn net.Conn
+		switch t.realPad {
+		case "min":
+			realStream.Script8 = [][]byte{rnd.ScriptIntn(0)}
+		case "max":
+			realStream.Script8 = [][]byte{rnd.ScriptIntn(8051)}
+		}
 		conn, wrapErr = sf.WrapConn(sw)
 		if wrapErr != nil {
 			return
@@ -297,6 +323,9 @@ func refClientVsRealServer(c *mc.Ctx, t tuple, seed int64) {
 	if w0 > 8192 {
 		fail(c, "handshake-length", "server/response-length", "response + seed frame is %d bytes > 8192", w0)
 	}
+	if t.realPad == "min" && w0 != 96+45 || t.realPad == "max" && w0 != 8192 {
+		fail(c, "handshake-length", "server/response-length-extreme", "with the padding draw scripted to its %s the response + seed frame is %d bytes (deployed: min 141, max 8192)", t.realPad, w0)
+	}
 	if len(rs.Frames) == 0 || len(rs.Packets) == 0 {
 		fail(c, "seed-frame", "server/no-frames", "no frame behind the server response")
 		return
@@ -346,11 +375,26 @@ func main() {
 						for _, format := range []string{"cert", "legacy"} {
 							for _, sc := range scripts {
 								for _, p := range spads {
-									add(tuple{id, sd, iat, bias, format, sc, p, "real-client"})
+									add(tuple{id, sd, iat, bias, format, sc, p, "real-client", 0, "", false})
+								}
+								for _, rp := range []string{"min", "max"} {
+									add(tuple{id, sd, iat, bias, format, sc, 7, "real-client", 0, rp, false})
+								}
+								if id == 0 && sc.name != "bulk" {
+									add(tuple{id, sd, iat, bias, format, sc, 7, "real-client", 0, "", true})
 								}
 								if format == "cert" { // the format only concerns the client side
 									for _, p := range cpads {
-										add(tuple{id, sd, iat, bias, format, sc, p, "real-server"})
+										add(tuple{id, sd, iat, bias, format, sc, p, "real-server", 0, "", false})
+									}
+									for _, hd := range []int64{-1, 1} {
+										add(tuple{id, sd, iat, bias, format, sc, 100, "real-server", hd, "", false})
+									}
+									for _, rp := range []string{"min", "max"} {
+										add(tuple{id, sd, iat, bias, format, sc, 100, "real-server", 0, rp, false})
+									}
+									if id == 0 && sc.name != "bulk" {
+										add(tuple{id, sd, iat, bias, format, sc, 100, "real-server", 0, "", true})
 									}
 								}
 							}
@@ -364,7 +408,7 @@ func main() {
 			seen := map[string]bool{}
 			for iat := 0; iat <= 2; iat++ {
 				for p := 0; p <= 8097; p++ {
-					t := tuple{0, 0, iat, false, "cert", scripts[0], p, "real-client"}
+					t := tuple{0, 0, iat, false, "cert", scripts[0], p, "real-client", 0, "", false}
 					if !seen[t.name()] {
 						seen[t.name()] = true
 					}
@@ -373,12 +417,12 @@ func main() {
 			for iat := 0; iat <= 2; iat++ {
 				for p := 0; p <= 8097; p++ {
 					if !contains(spads, p) {
-						add(tuple{0, 0, iat, false, "cert", scripts[0], p, "real-client"})
+						add(tuple{0, 0, iat, false, "cert", scripts[0], p, "real-client", 0, "", false})
 					}
 				}
 				for p := 76; p <= 8129; p++ {
 					if !contains(cpads, p) {
-						add(tuple{0, 0, iat, false, "cert", scripts[0], p, "real-server"})
+						add(tuple{0, 0, iat, false, "cert", scripts[0], p, "real-server", 0, "", false})
 					}
 				}
 			}
